@@ -293,3 +293,58 @@ pub fn shim_typenum() {
     let a: Array<u8, U7> = Default::default();
     assert!(a.len() == 7);
 }
+
+/// SeekNum for i32, `into_block_byte` (macro-generated in cipher/src/stream.rs): this Verus leaves the result of a signed
+/// `%` unspecified, so the body is `external_body` there and its contract (trait SeekNum: `cut`,
+/// `err_only_out_of_counter_range`, no panic) is checked HERE -- BOUNDED stand-in: every i32 position, each of the three
+/// counter types of the dependency, block sizes 1, 2, 4, .., 128 (the full (position, block size) domain with a symbolic
+/// divisor did not finish under CBMC in 20 minutes: divider against multiplier circuit).
+macro_rules! seeknum_i32_into { ($p:expr, $bs:expr, $ct:ty) => {{
+    let r = <i32 as cipher::SeekNum>::into_block_byte::<$ct>($p, $bs);
+    match r {
+        // quotient and remainder are characterised without a division: p = b * bs + y with 0 <= y < bs
+        Ok((b, y)) => { if $p >= 0 { assert!(y < $bs); assert!(b <= i32::MAX as $ct); assert!((b as i64) * ($bs as i64) + (y as i64) == $p as i64); } }
+        Err(_) => { assert!($p < 0); }       // every non-negative i32 quotient fits u32 / u64 / u128
+    }
+}}}
+macro_rules! seeknum_i32_all { ($p:expr, $bs:expr) => {{ seeknum_i32_into!($p, $bs, u32); seeknum_i32_into!($p, $bs, u64); seeknum_i32_into!($p, $bs, u128); }}}
+#[cfg_attr(kani, kani::proof)]
+pub fn shim_seeknum_i32_into() {
+    let p: i32 = nd::any();
+    match nd::upto(7) {
+        0 => seeknum_i32_all!(p, 1u8), 1 => seeknum_i32_all!(p, 2u8), 2 => seeknum_i32_all!(p, 4u8), 3 => seeknum_i32_all!(p, 8u8),
+        4 => seeknum_i32_all!(p, 16u8), 5 => seeknum_i32_all!(p, 32u8), 6 => seeknum_i32_all!(p, 64u8), _ => seeknum_i32_all!(p, 128u8),
+    }
+}
+
+/// the assumed integer conversions behind `StreamCipherCounter` (TryFrom / TryInto between the counter types and the
+/// SeekNum types) and `i32::from(u8)`: Ok iff the value fits, value preserved; full domain of the 32-bit pairs, loop-free
+#[cfg_attr(kani, kani::proof)]
+pub fn shim_int_conversions() {
+    let a: u32 = nd::any();
+    let r: Result<i32, _> = a.try_into();
+    assert!(r.is_ok() == (a <= i32::MAX as u32));
+    if let Ok(v) = r { assert!(v as i64 == a as i64); }
+    let b: i32 = nd::any();
+    let r: Result<u32, _> = u32::try_from(b);
+    assert!(r.is_ok() == (b >= 0));
+    if let Ok(v) = r { assert!(v as i64 == b as i64); }
+    let r: Result<u64, _> = u64::try_from(b);
+    assert!(r.is_ok() == (b >= 0));
+    let r: Result<u128, _> = u128::try_from(b);
+    assert!(r.is_ok() == (b >= 0));
+    let c: u64 = nd::any();
+    let r: Result<u32, _> = c.try_into();
+    assert!(r.is_ok() == (c <= u32::MAX as u64));
+    if let Ok(v) = r { assert!(v as u64 == c); }
+    let r: Result<i32, _> = c.try_into();
+    assert!(r.is_ok() == (c <= i32::MAX as u64));
+    let d: u128 = nd::any();
+    let r: Result<u64, _> = d.try_into();
+    assert!(r.is_ok() == (d <= u64::MAX as u128));
+    if let Ok(v) = r { assert!(v as u128 == d); }
+    let r: Result<u32, _> = d.try_into();
+    assert!(r.is_ok() == (d <= u32::MAX as u128));
+    let e: u8 = nd::any();
+    assert!(i32::from(e) as i64 == e as i64);
+}
